@@ -328,9 +328,9 @@ const maxOffsetsPerIter = 4096
 // selection for table-backed maps. exact reports whether the list is every order the real runtime
 // can produce for this map (given its slot layout).
 func offsets(s iterShape, full bool) (list []offset, exact bool) {
-	if s.Used <= 1 {
-		return nil, true // a single entry has a single order
-	}
+	// Note: a map with a single entry is explored too. It has one order as long as the loop body leaves
+	// the map alone, but a body that inserts into the map it ranges over makes even a singleton
+	// order-dependent (whether the new entry is visited depends on the start offset).
 	if !s.Large {
 		for v := uint64(1); v < 8; v++ {
 			list = append(list, offset{v, 0})
@@ -738,8 +738,10 @@ func workerOrder(w *core.Worker, gs []*gram) {
 			}
 			shape := b.shapes[k]
 			offs, exact := offsets(shape, full)
-			if len(offs) == 0 {
+			if shape.Used <= 1 {
 				sum.Trivial++
+			}
+			if len(offs) == 0 {
 				continue
 			}
 			if exact {
@@ -760,6 +762,9 @@ func workerOrder(w *core.Worker, gs []*gram) {
 				fn, pos := seamSite()
 				sum.Runs++
 				sum.Choices++
+				if shape.Used > 1 {
+					sum.Nontriv++
+				}
 				if sum.Site == "" && fn != "" {
 					sum.K, sum.Off, sum.Site, sum.SitePos, sum.Note = []int64{k}, []offset{off}, fn, pos, fmt.Sprintf("%d entries", shape.Used)
 				}
@@ -808,6 +813,9 @@ func workerPairs(w *core.Worker, gs []*gram) {
 				}
 				for k := range b.shapes {
 					o, _ := offsets(b.shapes[k], false)
+					if b.shapes[k].Used <= 1 {
+						o = nil // pairs: singletons are covered by the single-deviation phase only
+					}
 					offs = append(offs, o)
 					flags := make([]bool, len(o))
 					for i, off := range o {
@@ -1454,7 +1462,11 @@ func (a *agg) orderRecord(raw json.RawMessage, progress map[int]*rec) {
 		c.Transitions(r.Runs + r.Gens)
 		c.Traces(r.Runs)
 		c.States(r.Choices)
-		c.Nontrivial(r.Choices)
+		if r.Phase == "order-sum" {
+			c.Nontrivial(r.Nontriv) // deviations of iterations over maps with >= 2 entries
+		} else {
+			c.Nontrivial(r.Choices)
+		}
 		if r.Phase == "order-sum" {
 			p := progress[r.G]
 			if p == nil {
@@ -1473,7 +1485,7 @@ func (a *agg) orderRecord(raw json.RawMessage, progress map[int]*rec) {
 			}
 			c.Outcome("order:single-group-map-iteration-explored", r.SmallK)
 			c.Outcome("order:table-backed-map-iteration-explored", r.LargeK)
-			c.Outcome("order:singleton-map-iteration(one order only)", r.Trivial)
+			c.Outcome("order:of-them-over-a-single-entry-map", r.Trivial)
 		} else {
 			c.Add("pair_deviation_generations", r.Runs)
 			if r.Skipped > 0 {
@@ -1551,7 +1563,7 @@ func (a *agg) orderPhase(refdir string, refRecs []*rec, gis []int, dl string, co
 			p = &rec{}
 		}
 		covered[gs[gi].Name] = map[string]any{"n": ns[i], "iterations_explored": p.SmallK + p.LargeK, "of_them_exact(all real orders)": p.ExactK,
-			"singleton_iterations(one order)": p.Trivial, "deviating_generations": p.Runs, "iterations_not_reached_before_deadline": p.Skipped}
+			"of_them_over_single_entry_maps": p.Trivial, "deviating_generations": p.Runs, "iterations_not_reached_before_deadline": p.Skipped}
 		if p.Skipped > 0 {
 			c.Capped(fmt.Sprintf("map order of %s: %d of %d iterations not explored before the deadline", gs[gi].Name, p.Skipped, ns[i]))
 		}
